@@ -99,6 +99,7 @@ func runWakeupCase(c *checkCtx, cs wkCase) (res wkResult) {
 		}
 	}
 	var abort uint32
+	var abortInfo atomic.Value
 	// judge evaluates the property's quiescence predicate; returns false when its precondition cannot be established
 	judge := func(where string) bool {
 		ok := waitUntil(10*time.Second, func() bool {
